@@ -53,6 +53,8 @@ def const_of(t):
         return const_of(t[4][-1])
     if short in ("ZERO",):
         return 0
+    if short == "from" and len(t[4]) == 1 and "core::convert" in n:
+        return const_of(t[4][0])
     return None
 
 
